@@ -5,6 +5,7 @@
    STATUS <str w> snapopt(render) snapopt(makezip) tbl            -> response
    CD <str filename> <str ext> tbl                                 -> E <exc> | O <str>
    RESET | OP J <now> <str id> event | OP T <now> | OP D <now>     -> ok
+   SPACES                                                          -> all code points with py_isspace
    QINFO <str id>                                                  -> snapopt [phase]
    STSTATUS <str c> <str w> tbl                                    -> response
    event  : P <timeout> <ttl|-> | U | I <k> (<str> v)*k | F v v | K | M | W *)
@@ -82,6 +83,7 @@ let () =
          (match content_disposition (nfkd_of tbl) f e with
           | Inl x -> w "E"; w (exc_name x)
           | Inr s -> w "O"; wr_str s)
+       | "SPACES" -> for c = 0 to 0x10FFFF do if py_isspace (n_of_int c) then w (string_of_int c) done
        | "RESET" -> st := empty_store; w "ok"
        | "OP" ->
          (match next () with
